@@ -249,7 +249,28 @@ func runC11(c *sim.Ctx) *sim.Violation {
 		}
 		c.Count("probe.compared-with-2-fresh-processes-of-the-unmodified-build")
 	}
-	// (ii) read-only histories
+	// (ii) read-only histories. For a CONNECT with a will, one time in four the
+	// attached will is first changed through its own setters (which puts the
+	// packet outside the round-trip domain, but read-only operations must be
+	// read-only on ANY packet): the baseline is taken after that change.
+	if cn, ok := p.(*mq.Connect); ok && cn.Will() != nil && t.Bool(1, 4) {
+		w := cn.Will()
+		w.SetRetain(!w.Retain())
+		w.SetQoS((w.QoS() + 1) % 3)
+		c.Count("probe.read-only-history-on-a-CONNECT-whose-will-was-changed-after-SetWill")
+		// the new baseline encoding is itself a read-only operation: accessors and
+		// deep snapshot are taken BEFORE it and must survive it
+		cb, db := drv.Observe(p).Canon(), drv.DeepHash(p)
+		if b, err, pi := c11Encode(p, 1, 0); err == nil && pi == nil {
+			B0 = b
+		}
+		if f, wv, gv := ref.FirstDiff(cb, drv.Observe(p).Canon()); f != "" {
+			return sim.V(fmt.Sprintf("C11/%s/op-WriteTo-changed-accessor/%s", typ, f), "the attached will was changed through its own setters; the next WriteTo then changed accessor %s from %q to %q\n%s", f, wv, gv, desc())
+		}
+		if drv.DeepHash(p) != db {
+			return sim.V(fmt.Sprintf("C11/%s/op-WriteTo-wrote-hidden-state", typ), "the attached will was changed through its own setters; the next WriteTo then wrote memory reachable from the packet\n%s", desc())
+		}
+	}
 	canon0 := drv.Observe(p).Canon()
 	deep0 := drv.DeepHash(p)
 	n := 1 + t.Int(12)
